@@ -66,32 +66,46 @@ Proof. exact maybe_separate_inline. Qed.
 Theorem C11_maybe_separate_pointer_passes : maybe_separate_pointer_passes_stmt.
 Proof. exact maybe_separate_pointer_passes. Qed.
 
-(* B. the machine: every accepted operation sequence, any checksum function, any configuration *)
-Theorem C11_flush_records_values : forall crc cfg, flush_records_values_stmt crc cfg.
+(* B. the machine: every accepted operation sequence, any checksum function, any configuration, either form of the run-time
+   clean-up rule (chk) — except C11_old_reader_served, which is about the GENERATED rule VLOG_CLEANUP_CHECKS_READERS *)
+Theorem C11_flush_records_values : forall crc cfg chk, flush_records_values_stmt crc cfg chk.
 Proof. exact flush_records_values. Qed.
-Theorem C11_live_values_intact : forall crc cfg, live_values_intact_stmt crc cfg.
+Theorem C11_live_values_intact : forall crc cfg chk, live_values_intact_stmt crc cfg chk.
 Proof. exact live_values_intact. Qed.
 Theorem C11_cleanup_keeps_live_files : cleanup_keeps_live_files_stmt.
 Proof. exact cleanup_keeps_live_files. Qed.
 Theorem C11_cleanup_index_consistent : cleanup_index_consistent_stmt.
 Proof. exact cleanup_index_consistent. Qed.
-Theorem C11_live_pointers_have_files : forall crc cfg, live_pointers_have_files_stmt crc cfg.
+Theorem C11_live_pointers_have_files : forall crc cfg chk, live_pointers_have_files_stmt crc cfg chk.
 Proof. exact live_pointers_have_files. Qed.
-Theorem C11_files_synced : forall crc cfg, files_synced_stmt crc cfg.
+Theorem C11_files_synced : forall crc cfg chk, files_synced_stmt crc cfg chk.
 Proof. exact files_synced. Qed.
-Theorem C11_ids_never_reused : forall crc cfg, ids_never_reused_stmt crc cfg.
+Theorem C11_ids_never_reused : forall crc cfg chk, ids_never_reused_stmt crc cfg chk.
 Proof. exact ids_never_reused. Qed.
-Theorem C11_old_reader_never_wrong : forall crc cfg, old_reader_never_wrong_stmt crc cfg.
+Theorem C11_old_reader_never_wrong : forall crc cfg chk, old_reader_never_wrong_stmt crc cfg chk.
 Proof. exact old_reader_never_wrong. Qed.
-(* NOT protected: a reader holding an older table set across a clean-up (closed witness: w_ops) *)
-Theorem C11_old_reader_unprotected : old_reader_unprotected_stmt.
-Proof. exact old_reader_unprotected. Qed.
+(* readers holding an older table set across flushes and compactions are served (repair of C11-N1) *)
+Theorem C11_old_reader_served : old_reader_served_stmt.
+Proof. exact old_reader_served. Qed.
+(* the deferred clean-up is the ordinary one once no reader is registered, and is only deferred while one is *)
+Theorem C11_cleanup_runs_without_readers : cleanup_runs_without_readers_stmt.
+Proof. exact cleanup_runs_without_readers. Qed.
+Theorem C11_cleanup_deferred_with_readers : cleanup_deferred_with_readers_stmt.
+Proof. exact cleanup_deferred_with_readers. Qed.
+(* regression record: the rule BEFORE the repair (no test at the call sites) leaves such a reader unprotected *)
+Theorem C11_old_reader_unprotected_without_check : old_reader_unprotected_without_check_stmt.
+Proof. exact old_reader_unprotected_without_check. Qed.
 
-(* the hypotheses are satisfiable: the witness run is accepted, reaches a state with a live separated value, a
-   removed file and an open reader; the live value resolves *)
+(* the generated rule is the repaired one *)
+Example C11_rule_is_repaired : VLOG_CLEANUP_CHECKS_READERS = true.
+Proof. reflexivity. Qed.
+(* the hypotheses are satisfiable, and the three outcomes of the witness run w_ops (flush, flush, reader, compaction):
+   without the test file 1 is removed under the reader; with it file 1 stays and the reader's old value resolves; after
+   the reader has gone the next flush removes file 1 *)
 Example C11_machine_instance :
-  vs_run w_crc w_cfg w_ops vs0 = Some w_st /\
-  map vf_id (vs_files w_st) = [2%N] /\
-  map (fun t => (tb_id t, tb_oldest t)) (vs_tables w_st) = [(12%N, 2%N)] /\
-  map (fun t => fst (vs_resolve w_crc w_cfg w_st (te_enc (hd w_e (tb_entries t))))) (vs_tables w_st) = [Some [6%N; 6%N; 6%N]].
+  vs_run w_crc w_cfg false w_ops vs0 = Some w_st /\ map vf_id (vs_files w_st) = [2%N] /\
+  vs_run w_crc w_cfg true w_ops vs0 = Some w_st_chk /\ map vf_id (vs_files w_st_chk) = [1%N; 2%N] /\
+  fst (vs_resolve w_crc w_cfg w_st_chk (te_enc w_e)) = Some [7%N; 7%N; 7%N; 7%N] /\
+  vs_run w_crc w_cfg true w_ops_after vs0 = Some w_st_after /\ map vf_id (vs_files w_st_after) = [2%N; 3%N] /\
+  map (fun t => (tb_id t, tb_oldest t)) (vs_tables w_st_after) = [(12%N, 2%N); (13%N, 3%N)].
 Proof. vm_compute. repeat split. Qed.
